@@ -454,6 +454,23 @@ def absorbed_once(ctx: Ctx):
         if isinstance(st, ast.Assign) and len(st.targets) == 1 and isinstance(st.targets[0], (ast.Tuple, ast.List)) and len(st.targets[0].elts) == 2 and all(isinstance(x, ast.Name) for x in st.targets[0].elts):
             if any(isinstance(x, ast.Name) and x.id in ("init", "kt") for x in ast.walk(st.value)) or (isinstance(st.value, ast.Call) and call_name(st.value) == "CPTensor"):
                 wnames.add(st.targets[0].elts[0].id)
+    # ... or read by position / by attribute: w, fs = kt[0], kt[1]; w = kt.weights
+    holders = {"init", "kt"} | {st.targets[0].id for st in own_scope_nodes(f.node) if isinstance(st, ast.Assign) and len(st.targets) == 1 and isinstance(st.targets[0], ast.Name) and isinstance(st.value, ast.Call) and call_name(st.value) == "CPTensor"}
+
+    def weight_read(e):
+        if isinstance(e, ast.Subscript) and isinstance(e.value, ast.Name) and e.value.id in holders and isinstance(e.slice, ast.Constant) and e.slice.value == 0:
+            return True
+        return isinstance(e, ast.Attribute) and e.attr == "weights" and isinstance(e.value, ast.Name) and e.value.id in holders
+
+    for st in own_scope_nodes(f.node):
+        if isinstance(st, ast.Assign) and len(st.targets) == 1:
+            t, v = st.targets[0], st.value
+            if isinstance(t, ast.Name) and weight_read(v):
+                wnames.add(t.id)
+            elif isinstance(t, (ast.Tuple, ast.List)) and isinstance(v, (ast.Tuple, ast.List)) and len(t.elts) == len(v.elts):
+                for tt, vv in zip(t.elts, v.elts):
+                    if isinstance(tt, ast.Name) and weight_read(vv):
+                        wnames.add(tt.id)
     if not wnames:
         raise AnalysisError("ABSORBED-ONCE: initialize_cp no longer unpacks (weights, factors) from the user's CP tensor; cannot decide")
     derived = set(wnames)
